@@ -375,8 +375,11 @@ class simp_full(Conv):
             pt_mul_neg1 = pt.on_rhs(rewr_conv('int_poly_neg1'))
             pt_new = self.get_proof_term(pt_mul_neg1.prop.rhs)
             return pt.transitive(pt_mul_neg1).transitive(pt_new)
-        elif is_if(t):
-            return pt.on_rhs(binop_conv(self))
+        elif is_if(t):  # normalise the branches, then treat as an atom: 1 * t ^ 1
+            return pt.on_rhs(
+                binop_conv(self),
+                rewr_conv('int_pow_1_r', sym=True),
+                rewr_conv('int_mul_1_l', sym=True))
         else:  # rewrite x to 1 * x ^ 1
             return pt.on_rhs(
                 rewr_conv('int_pow_1_r', sym=True),
